@@ -2,6 +2,7 @@
 import numpy as np
 from pyvc.contract import contract, macro, spec_fn, corollary, CONTRACTS
 from pyvc import gens
+import pyvc.calls  # noqa: F401  (loads pyvc/ext/*, incl. the ghost position counter of pyvc/ext/c04.py)
 
 IU = "autoarray.inversion.inversion.imaging.inversion_imaging_util:"
 VU = "autoarray.inversion.inversion.inversion_util:"
@@ -60,3 +61,185 @@ def _g_mr(rng, tier):
 
 CONTRACTS[IU + "data_vector_via_blurred_mapping_matrix_from"].gen = _g_dv
 CONTRACTS[VU + "mapped_reconstructed_data_via_mapping_matrix_from"].gen = _g_mr
+
+# ------------------------------------------------------------------------------------------------
+# symmetric mirroring and the diagonal term on unregularised parameters
+# ------------------------------------------------------------------------------------------------
+# the entry of the pair {a, b} that mirroring keeps when it looks at (a, b) first: F[a,b] unless it is empty (zero)
+macro("c04_pref", ["F", "a", "b"], "(F[a, b] if F[a, b] != 0 else F[b, a])",
+      py=lambda F, a, b: float(F[a, b] if F[a, b] != 0 else F[b, a]))
+
+_D1 = "(a < i or (a == i and b < {j}))"      # (a, b) has been visited as (i', j')
+_D2 = "(b < i or (b == i and a < {j}))"      # (b, a) has been visited
+_MIR = ("forall(0, n, lambda a: forall(0, n, lambda b: curvature_matrix_mirrored[a, b] == ("
+        "(c04_pref(F, a, b) if " + _D2 + " else (c04_pref(F, b, a) if " + _D1 + " else 0)) if a <= b else "
+        "(c04_pref(F, b, a) if " + _D1 + " else (c04_pref(F, a, b) if " + _D2 + " else 0)))))")
+contract(
+    VU + "curvature_matrix_mirrored_from", props=["C04"],
+    types={"curvature_matrix": "real[2]"}, returns="real[2]",
+    let={"n": "curvature_matrix.shape[0]", "F": "curvature_matrix"},
+    requires=["curvature_matrix.shape[1] == n"],
+    ensures=["result.shape[0] == n", "result.shape[1] == n",
+             # the mirrored curvature matrix is symmetric ...
+             "forall(0, n, lambda a: forall(0, n, lambda b: result[a, b] == result[b, a]))",
+             # ... every entry whose transposed partner is empty (a matrix filled in one triangle / one off-diagonal block only)
+             # or equal is kept, and every empty entry is filled from its transposed partner
+             "forall(0, n, lambda a: forall(0, n, lambda b: implies(F[a, b] == 0 or F[b, a] == 0 or F[a, b] == F[b, a],"
+             " result[a, b] == (F[a, b] if F[a, b] != 0 else F[b, a]))))"],
+    loops={0: {"inv": [_MIR.format(j="0")]}, 1: {"inv": [_MIR.format(j="j")]}},
+    sentence={"result[b, a]": "the curvature matrix is symmetric",
+              "implies": "mirroring keeps every filled entry and fills every empty one from its transposed partner"},
+)
+
+_OCC = "sumto({t}, lambda k: (1 if no_regularization_index_list[k] == a else 0))"
+_UNIQ = "forall(0, L, lambda k2: k2 == k or no_regularization_index_list[k2] != no_regularization_index_list[k])"
+contract(
+    VU + "curvature_matrix_with_added_to_diag_from", props=["C04"],
+    types={"curvature_matrix": "real[2]", "value": "real", "no_regularization_index_list": "int[1]"}, returns="real[2]",
+    let={"n0": "curvature_matrix.shape[0]", "n1": "curvature_matrix.shape[1]", "L": "no_regularization_index_list.shape[0]",
+         "ix": "no_regularization_index_list"},
+    requires=["forall(0, L, lambda k: 0 <= no_regularization_index_list[k] and no_regularization_index_list[k] < n0"
+              " and no_regularization_index_list[k] < n1)"],
+    modifies=["curvature_matrix"], result_alias="curvature_matrix",
+    ensures=["result.shape[0] == n0", "result.shape[1] == n1",
+             # only the diagonal changes ...
+             "forall(0, n0, lambda a: forall(0, n1, lambda b: implies(a != b, result[a, b] == old(curvature_matrix)[a, b])))",
+             # ... by `value` per listed occurrence of the parameter (nothing on parameters that are not listed)
+             "forall(0, n0, lambda a: implies(a < n1, result[a, a] == old(curvature_matrix)[a, a] + value * " + _OCC.format(t="L") + "))",
+             "forall(0, n0, lambda a: implies(a < n1 and forall(0, L, lambda k: no_regularization_index_list[k] != a),"
+             " result[a, a] == old(curvature_matrix)[a, a]))",
+             "forall(0, L, lambda k: implies(" + _UNIQ + ", result[ix[k], ix[k]] == old(curvature_matrix)[ix[k], ix[k]] + value))"],
+    loops={0: {"inv": [
+        "0 <= pos_L0 and pos_L0 <= L",
+        "forall(0, n0, lambda a: forall(0, n1, lambda b: implies(a != b, curvature_matrix[a, b] == old(curvature_matrix)[a, b])))",
+        "forall(0, n0, lambda a: implies(a < n1, curvature_matrix[a, a] == old(curvature_matrix)[a, a] + value * " + _OCC.format(t="pos_L0") + "))",
+        "forall(0, n0, lambda a: implies(a < n1 and forall(0, pos_L0, lambda k: no_regularization_index_list[k] != a),"
+        " curvature_matrix[a, a] == old(curvature_matrix)[a, a]))",
+        "forall(0, L, lambda k: implies(" + _UNIQ + ", curvature_matrix[ix[k], ix[k]] == old(curvature_matrix)[ix[k], ix[k]] + (value if k < pos_L0 else 0)))",
+    ]}},
+    sentence={"a != b": "only the diagonal of the curvature matrix is changed",
+              "sumto": "the configured value is added once per listed parameter without regularization",
+              "!= a)": "nothing is added on parameters that are not listed"},
+)
+
+
+def _g_mirror(rng, tier):
+    for _ in range(gens.budget(tier, 300, 3000)):
+        n = rng.randint(0, 5)
+        # exact zeros only (engine C compares floats with a tolerance, the code tests `!= 0` exactly)
+        f = np.array([[rng.choice([0.0, 0.0, 1.0, -1.5, 2.0, rng.uniform(-3, 3)]) for _ in range(n)] for _ in range(n)]).reshape(n, n)
+        mode = rng.randrange(4)
+        if mode == 0:
+            f = np.triu(f)
+        elif mode == 1:
+            f = np.tril(f)
+        elif mode == 2:
+            f = np.triu(f) + np.triu(f, 1).T
+        yield {"curvature_matrix": f}
+
+
+def _g_diag(rng, tier):
+    for _ in range(gens.budget(tier, 300, 3000)):
+        n0 = rng.randint(1, 5)
+        n1 = n0 if rng.random() < 0.8 else rng.randint(1, 5)
+        m = min(n0, n1)
+        L = rng.randint(0, 4)
+        if rng.random() < 0.6:
+            ix = np.array(sorted(rng.sample(range(m), min(L, m))), dtype=int)
+        else:
+            ix = np.array([rng.randrange(m) for _ in range(L)], dtype=int)
+        yield {"curvature_matrix": gens.reals(rng, (n0, n1), -3, 3), "value": rng.choice([1e-8, 1.0, -2.5, 0.0]),
+               "no_regularization_index_list": ix}
+
+
+CONTRACTS[VU + "curvature_matrix_mirrored_from"].gen = _g_mirror
+CONTRACTS[VU + "curvature_matrix_with_added_to_diag_from"].gen = _g_diag
+
+# ------------------------------------------------------------------------------------------------
+# unique-mapping tables: row i of the (unblurred) mapping matrix is the front-packed list (pixel, weight)
+# ------------------------------------------------------------------------------------------------
+def _map_py(u, w, ln, i, p):
+    return float(sum(w[i, c] for c in range(int(ln[i])) if int(u[i, c]) == p))
+
+
+# entry (i, p) of the mapping matrix encoded by the tables: M[i,p] = sum_{c < len[i]} [unique[i,c] == p] weights[i,c]
+macro("c04_map", ["u", "w", "ln", "i", "p"], "sumto(ln[i], lambda c: (w[i, c] if u[i, c] == p else 0))", py=_map_py)
+
+_UT = ["{u}.shape[0] == {n}", "{w}.shape[0] == {n}", "{l}.shape[0] == {n}",
+       "forall(0, {n}, lambda i: 0 <= {l}[i] and {l}[i] <= {u}.shape[1] and {l}[i] <= {w}.shape[1])",
+       "forall(0, {n}, lambda i: forall(0, {l}[i], lambda c: 0 <= {u}[i, c] and {u}[i, c] < {p}))"]
+
+
+def _ut(u, w, l, n, p):
+    return [x.format(u=u, w=w, l=l, n=n, p=p) for x in _UT]
+
+
+_UTY = {"data_to_pix_unique": "int[2]", "data_weights": "real[2]", "pix_lengths": "int[1]"}
+_U3 = "data_to_pix_unique, data_weights, pix_lengths"
+
+_DW = "sumto({n}, lambda i: w_tilde_data[i] * c04_map(" + _U3 + ", i, p))"
+contract(
+    IU + "data_vector_via_w_tilde_data_imaging_from", props=["C04"],
+    types={"w_tilde_data": "real[1]", **_UTY, "pix_pixels": "int"}, returns="real[1]",
+    let={"N": "w_tilde_data.shape[0]", "P": "pix_pixels"},
+    requires=["pix_pixels >= 0"] + _ut("data_to_pix_unique", "data_weights", "pix_lengths", "N", "P"),
+    ensures=["result.shape[0] == P",
+             # D_p = sum_i M_ip wd_i   (M^T applied to the w-tilde data term)
+             "forall(0, P, lambda p: result[p] == " + _DW.format(n="N") + ")"],
+    loops={
+        0: {"inv": ["forall(0, P, lambda p: data_vector[p] == " + _DW.format(n="data_0") + ")"]},
+        1: {"inv": ["forall(0, P, lambda p: data_vector[p] == " + _DW.format(n="data_0")
+                    + " + w_tilde_data[data_0] * sumto(pix_0_index, lambda c: (data_weights[data_0, c] if data_to_pix_unique[data_0, c] == p else 0)))"]},
+    },
+    sentence={"sumto": "the w-tilde data vector is the transposed mapping matrix applied to the w-tilde data term: D_p = sum_i M_ip wd_i"},
+)
+
+_GA = "sumto({c}, lambda c: data_weights[{i}, c] * reconstruction[data_to_pix_unique[{i}, c]])"
+contract(
+    VU + "mapped_reconstructed_data_via_image_to_pix_unique_from", props=["C04", "C05"],
+    types={**_UTY, "reconstruction": "real[1]"}, returns="real[1]",
+    let={"N": "data_to_pix_unique.shape[0]", "P": "reconstruction.shape[0]"},
+    requires=_ut("data_to_pix_unique", "data_weights", "pix_lengths", "N", "P"),
+    ensures=["result.shape[0] == N",
+             # (M s)_i written over the non-zero entries of row i
+             "forall(0, N, lambda i: result[i] == " + _GA.format(c="pix_lengths[i]", i="i") + ")"],
+    loops={
+        0: {"inv": ["forall(0, data_0, lambda i: mapped_reconstructed_data[i] == " + _GA.format(c="pix_lengths[i]", i="i") + ")",
+                    "forall(data_0, N, lambda i: mapped_reconstructed_data[i] == 0)"]},
+        1: {"inv": ["forall(0, data_0, lambda i: mapped_reconstructed_data[i] == " + _GA.format(c="pix_lengths[i]", i="i") + ")",
+                    "forall(data_0 + 1, N, lambda i: mapped_reconstructed_data[i] == 0)",
+                    "mapped_reconstructed_data[data_0] == " + _GA.format(c="pix_0", i="data_0")]},
+    },
+    sentence={"sumto": "mapped reconstructed data is the mapping matrix encoded by the unique tables applied to the reconstruction"},
+)
+
+
+def _utables(rng, n, p, cmax=3):
+    C = rng.randint(1, cmax)
+    u = -np.ones((n, C), dtype=int)
+    w = np.zeros((n, C))
+    ln = np.zeros(n, dtype=int)
+    for i in range(n):
+        ln[i] = rng.randint(0, C) if p > 0 else 0
+        for c in range(ln[i]):
+            u[i, c] = rng.randrange(p)
+            w[i, c] = rng.choice([rng.uniform(-1, 2), 0.25, 0.5, 1.0])
+    return u, w, ln
+
+
+def _g_dvw(rng, tier):
+    for _ in range(gens.budget(tier, 200, 2000)):
+        n, p = rng.randint(0, 5), rng.randint(0, 4)
+        u, w, ln = _utables(rng, n, p)
+        yield {"w_tilde_data": gens.reals(rng, (n,)), "data_to_pix_unique": u, "data_weights": w, "pix_lengths": ln, "pix_pixels": p}
+
+
+def _g_mru(rng, tier):
+    for _ in range(gens.budget(tier, 200, 2000)):
+        n, p = rng.randint(0, 5), rng.randint(0, 4)
+        u, w, ln = _utables(rng, n, p)
+        yield {"data_to_pix_unique": u, "data_weights": w, "pix_lengths": ln, "reconstruction": gens.reals(rng, (p,))}
+
+
+CONTRACTS[IU + "data_vector_via_w_tilde_data_imaging_from"].gen = _g_dvw
+CONTRACTS[VU + "mapped_reconstructed_data_via_image_to_pix_unique_from"].gen = _g_mru
